@@ -10,13 +10,17 @@ functions); entries are read through the public ``Journal.entries``.
 
 from __future__ import annotations
 
+import contextlib
+import copy
+import dataclasses
 import heapq
 import inspect
+import io
 import re
 import sys
 
 import onnx_ir as ir
-from onnx_ir import _core, _graph_containers
+from onnx_ir import _core, _graph_containers, serde, tensor_adapters
 from onnx_ir import journaling
 
 from vfpy import histories
@@ -31,9 +35,10 @@ MAX_DEPTH = 3
 
 def ir_classes() -> list[type]:
     out = []
-    for m in (_core, _graph_containers):
+    # serde / tensor_adapters: the tensor classes defined outside _core (subclasses of instrumented classes)
+    for m in (_core, _graph_containers, serde, tensor_adapters):
         for name, c in vars(m).items():
-            if inspect.isclass(c) and c.__module__ in (m.__name__, "onnx_ir") and c.__name__ == name:
+            if inspect.isclass(c) and c.__module__ in (m.__name__, "onnx_ir") and c.__name__ == name and c not in out:
                 out.append(c)
     return out
 
@@ -298,7 +303,8 @@ def entry_key(e) -> str | None:
     return None
 
 
-def match_entries(entries, calls, t0, t1, unmapped=False, extra_credits=None, fault_clock=None, hook_ranges=()):
+def match_entries(entries, calls, t0, t1, unmapped=False, extra_credits=None, fault_clock=None, hook_ranges=(),
+                  repr_raised_ranges=()):
     """Judge the entries of one journal activation against the calls with t0 < start, end <= t1.
 
     Reading of the statement: every completed call has exactly one entry of its kind on its object;
@@ -307,6 +313,13 @@ def match_entries(entries, calls, t0, t1, unmapped=False, extra_credits=None, fa
     (interval order + labels): scan the entries; a completed call is *available* when every
     completed call that ended before it started is already matched; match each entry to the
     available unmatched call of its kind that ends first.
+
+    ``repr_raised_ranges``: clock ranges of client calls that the client saw *raise from the journaling layer
+    itself* (while it was taking the repr() of an object for the entry).  The wrappers of constructors call
+    the original first, so the original may have completed although the client's call did not: for the client
+    that operation is not a completed one.  The last call of such a range (nothing started after it ended),
+    when no entry can be its entry, is not judged (``report_only_completed_original_of_operation_whose_entry_repr_raised``);
+    the exception itself is what the differential monitor reports.
 
     ``extra_credits``: key -> number of entries of operations that raised because a *hook* of this
     journal raised while the entry was being recorded (the client saw the operation raise; whether the
@@ -328,6 +341,19 @@ def match_entries(entries, calls, t0, t1, unmapped=False, extra_credits=None, fa
             completed.append([key, tid, ts, te, False, any(a < ts and te <= b for a, b in hook_ranges)])
         else:
             credits[key] = credits.get(key, 0) + 1
+    not_judged = 0
+    for a, b in repr_raised_ranges:
+        inside = [c for c in completed if a < c[2] and c[3] <= b and not c[5]]
+        if not inside:
+            continue
+        last = max(inside, key=lambda c: c[3])
+        if any(a < c[3] <= b and c[3] > last[3] for c in calls):
+            continue  # something else began after it ended: it is not the call whose wrapper raised
+        same = sum(1 for c in completed if c[0] == last[0] and c[1] == last[1])
+        have = sum(1 for e in entries if entry_key(e) == last[0] and (last[1] is None or e.object_id == last[1]))
+        if have < same:
+            completed.remove(last)
+            not_judged += 1
     by_key: dict[str, list] = {}
     for c in completed:
         by_key.setdefault(c[0], []).append(c)
@@ -388,6 +414,7 @@ def match_entries(entries, calls, t0, t1, unmapped=False, extra_credits=None, fa
             problems.append((kind, c[0], f"a completed {c[0]} call (clock {c[2]}..{c[3]}) has no entry{where}"))
     stats = {"completed": len(completed), "matched": matched, "tolerated": tolerated,
              "report_only_entries_of_unmapped_operations": unexplained,
+             "report_only_completed_original_of_operation_whose_entry_repr_raised": not_judged,
              "raised": sum(1 for c in calls if c[3] > t0 and c[4] is not None and c[4] <= t1 and not c[5])}
     return problems, stats
 
@@ -415,22 +442,36 @@ def raise_line(exc):
     return out
 
 
+def repr_for_entry(exc) -> bool:
+    """Localisation: was the exception raised while the *journal* was taking the repr()/str() of an object for
+    an entry (the frame that follows the innermost journaling frame is a __repr__ / __str__ / __format__)?"""
+    tb, frames = exc.__traceback__, []
+    while tb is not None:
+        frames.append(tb.tb_frame.f_code)
+        tb = tb.tb_next
+    last = max((k for k, c in enumerate(frames) if "/onnx_ir/journaling/" in c.co_filename.replace("\\", "/")), default=None)
+    return last is not None and last + 1 < len(frames) and frames[last + 1].co_name in ("__repr__", "__str__", "__format__")
+
+
 def norm_result(w, res):
     if res.skipped:
         return ("skip",)
     if res.raised:
         try:
-            text = norm_text(str(res.exc))
+            text = norm_text(w.norm(str(res.exc)))
         except Exception as e:  # noqa: BLE001 - e.g. the message embeds a half-constructed node
             text = f"<message unprintable: {type(e).__name__}>"
-        return ("exc", type(res.exc).__name__, text, histories.raise_site(res.exc), raise_line(res.exc))
+        return ("exc", type(res.exc).__name__, text, histories.raise_site(res.exc), raise_line(res.exc),
+                repr_for_entry(res.exc))
     r = res.ret
-    if r is None or isinstance(r, (str, int, float, bool)):
+    if isinstance(r, str):
+        return ("ret", w.norm(r))
+    if r is None or isinstance(r, (int, float, bool)):
         return ("ret", r)
     if w.known(r):
         return ("ret", w.label(r))
     try:
-        return ("ret", type(r).__name__, norm_text(repr(r)))
+        return ("ret", type(r).__name__, norm_text(w.norm(repr(r))))
     except Exception as e:  # noqa: BLE001
         return ("ret", type(r).__name__, f"<repr failed: {type(e).__name__}>")
 
@@ -450,6 +491,7 @@ class Observed:
         self.checkpoints: dict = {}   # item index -> (snapshot, extra_state)
         self.problems: list = []      # (category, key, text) from the journal monitors
         self.journals: list = []      # every Journal object used
+        self.kept: list = []          # what the client kept from looking at the journals (lists of entries, strings)
         self.stats: dict = {}
 
     def add(self, k, n=1):
@@ -554,6 +596,86 @@ class TouchHook:
 HOOK_CLASSES = {"observe": ObserveHook, "fault": FaultHook, "touch": TouchHook}
 
 
+# =============================================================================================
+# the client looks at a journal (public accessors of JournalEntry / Journal only)
+# =============================================================================================
+def _public_data_attributes(cls) -> list[str]:
+    """Public names of a class that are read, not called: dataclass fields, properties and the like."""
+    names = {f.name for f in dataclasses.fields(cls)} if dataclasses.is_dataclass(cls) else set()
+    for name in dir(cls):
+        if not name.startswith("_") and not inspect.isroutine(inspect.getattr_static(cls, name)):
+            names.add(name)
+    return sorted(n for n in names if not n.startswith("_"))
+
+
+ENTRY_PUBLIC = _public_data_attributes(journaling.JournalEntry)
+JOURNAL_PUBLIC = _public_data_attributes(Journal)
+PER_ENTRY_CAP = 60
+
+
+def _some(entries):
+    n = len(entries)
+    return entries if n <= PER_ENTRY_CAP else [entries[i * n // PER_ENTRY_CAP] for i in range(PER_ENTRY_CAP)]
+
+
+def _i_ref(j, entries, keep):
+    for e in _some(entries):
+        if e.ref is not None:
+            e.ref()
+
+
+def _i_obj(j, entries, keep):
+    for e in _some(entries):
+        e.obj  # noqa: B018
+
+
+def _i_details(j, entries, keep):
+    keep.append([e.details for e in _some(entries)])  # strings: the client may keep them
+
+
+def _i_public(j, entries, keep):
+    for e in _some(entries):
+        for name in ENTRY_PUBLIC:
+            getattr(e, name)
+    for name in JOURNAL_PUBLIC:
+        getattr(j, name)
+
+
+def _i_entry_display(j, entries, keep):
+    with contextlib.redirect_stdout(io.StringIO()):
+        for e in _some(entries):
+            e.display()
+
+
+def _i_journal_display(j, entries, keep):
+    with contextlib.redirect_stdout(io.StringIO()):
+        j.display()
+
+
+def _i_filter(j, entries, keep):
+    # the documented way to filter: a comprehension over Journal.entries; the client keeps the result
+    if entries:
+        op, cn = entries[len(entries) // 2].operation, entries[len(entries) // 2].class_name
+        keep.append([e for e in j.entries if e.operation == op and e.class_name == cn])
+        keep.append([e for e in j.entries if e.class_ is not None and e.operation.startswith("set_")])
+
+
+def _i_repr_eq_copy(j, entries, keep):
+    some = _some(entries)
+    for a, b in zip(some, some[1:] + some[:1]):
+        repr(a)
+        a == b  # noqa: B015
+    keep.append([copy.copy(e) for e in some[:10]])
+    keep.append([dataclasses.replace(e, details=None) for e in some[:10]])
+
+
+INSPECTORS = {
+    "entry.ref()": _i_ref, "entry.obj": _i_obj, "entry.details": _i_details, "entry.public-attributes": _i_public,
+    "entry.display()": _i_entry_display, "Journal.display()": _i_journal_display,
+    "filter-by-operation-and-class": _i_filter, "repr/eq/copy": _i_repr_eq_copy,
+}
+
+
 class Runner:
     """Executes a marked history on a world.  ``journaled=False`` ignores the markers (plain run)."""
 
@@ -575,6 +697,7 @@ class Runner:
         self.fault_next = False
         self.faults: dict = {}       # id(journal) -> [(table key of the entry, clock)] of the current activation
         self.first_fault: dict = {}  # id(journal) -> clock of the first hook fault ever
+        self.repr_raised: list = []  # clock ranges of client calls that raised from the repr() taken for an entry
 
     # -- hooks
     def add_hook(self, j, kind):
@@ -600,6 +723,26 @@ class Runner:
                 if unseen > n_faults:
                     self.obs.add("report_only_hook_not_notified_of_entry", unseen - n_faults)
 
+    # -- the client looks at the journals used so far
+    def inspect(self, names):
+        obs = self.obs
+        obs.add("inspections")
+        obs.add("inspections_inside_a_journal" if self.active else "inspections_after_the_last_exit")
+        for j in obs.journals[-4:]:
+            entries = list(j.entries)
+            obs.add("entries_inspected_while_object_alive",
+                    sum(1 for e in _some(entries) if e.ref is not None and e.ref() is not None))
+            for name in names:
+                fn = INSPECTORS.get(name)
+                if fn is None:
+                    continue
+                obs.add("inspect:" + name)
+                try:
+                    fn(j, entries, obs.kept)
+                except Exception as e:  # noqa: BLE001 - the statement does not speak of the display helpers
+                    obs.add(f"report_only_inspector_raised:{name}:{type(e).__name__}")
+            entries = None
+
     # -- one history item
     def step(self, i):
         op = self.items[i]
@@ -616,6 +759,7 @@ class Runner:
             except Exception:  # noqa: BLE001 - empty pool: the call cannot be formed
                 expect = None
         sh = self.shared
+        c0 = self.log.clock
         arm, self.fault_next = self.fault_next, False
         if arm and self.journaled and self.active and op[0] in FAULTABLE:
             j = self.active[-1]
@@ -657,6 +801,9 @@ class Runner:
                     f"recorded no '{expect[0]}' entry for the object ({len(new)} new entries: "
                     f"{[e.operation for e in new][:6]})"
                     + ("; a hook of this journal had raised once before (handled by the caller)" if after else "")))
+        if self.journaled and res.exc is not None and repr_for_entry(res.exc):
+            self.repr_raised.append((c0, self.log.clock))
+            self.obs.add("client_calls_that_raised_from_the_repr_taken_for_an_entry")
         self.last_exc = res.exc
         self.obs.results.append(norm_result(self.w, res))
         if i in self.checkpoint_at:
@@ -683,7 +830,8 @@ class Runner:
             if key is not None:
                 credits[key] = credits.get(key, 0) + 1
         problems, stats = match_entries(entries, self.log.calls, t0, t1, self.unmapped, extra_credits=credits,
-                                        fault_clock=self.first_fault.get(id(j)), hook_ranges=self.shared.touch_ranges)
+                                        fault_clock=self.first_fault.get(id(j)), hook_ranges=self.shared.touch_ranges,
+                                        repr_raised_ranges=self.repr_raised)
         if self.hooks.get(id(j)):
             obs.add("journal_exits_with_hooks")
             if faults:
@@ -699,6 +847,9 @@ class Runner:
             if v or not k.startswith("report_only"):
                 obs.add(k if k.startswith("report_only") else "calls_" + k, v)
         obs.add("entries_seen", len(entries))
+        for e in entries:
+            if e.operation == "init":
+                obs.add("init_entries:" + e.class_name)
         if stats["completed"] >= 5:
             obs.add("journals_with_5+_completed_calls")
         for kind, key, text in problems:
@@ -786,6 +937,12 @@ class Runner:
                 self.last_exc = None
                 self.pending = [exc, levels, i + 1]
                 raise exc
+            elif it[0] == "J_inspect":
+                self.obs.results.append(("marker",))
+                if self.journaled and self.obs.journals:
+                    self.inspect(it[1])
+                i += 1
+                continue
             elif it[0] in ("J_hook", "J_hook_clear", "J_fault"):
                 self.obs.results.append(("marker",))
                 if self.journaled and self.active:
